@@ -146,7 +146,11 @@ where
 
 /-! ### the shape of a plan, for comparing with the real optimizer's output -/
 
-/-- node kinds, operators and function names, and where the coalesce / remote nodes sit; inside a
+/-- by/without and the grouping labels as written -/
+def shapeGrp (w : Bool) (g : List String) : String :=
+  (if w then "!" else "") ++ "{" ++ String.intercalate ";" g ++ "}"
+
+/-- node kinds, operators (with their grouping) and function names, and where the coalesce / remote nodes sit; inside a
 remote node (whose query travels as text) step-invariant wrappers are not visible -/
 def shape (inRemote : Bool) : Expr V → String
   | .num _ => "n"
@@ -155,8 +159,8 @@ def shape (inRemote : Bool) : Expr V → String
   | .msel _ _ => "m"
   | .subq e => "q(" ++ shape inRemote e ++ ")"
   | .call fn args => "c:" ++ fn ++ "(" ++ shapeArgs args ++ ")"
-  | .agg op _ _ e => "a:" ++ op ++ "(" ++ shape inRemote e ++ ")"
-  | .aggP op _ _ p e => "a:" ++ op ++ "[" ++ shape inRemote p ++ "](" ++ shape inRemote e ++ ")"
+  | .agg op w g e => "a:" ++ op ++ shapeGrp w g ++ "(" ++ shape inRemote e ++ ")"
+  | .aggP op w g p e => "a:" ++ op ++ shapeGrp w g ++ "[" ++ shape inRemote p ++ "](" ++ shape inRemote e ++ ")"
   | .bin op _ _ l r => "b:" ++ op ++ "(" ++ shape inRemote l ++ "," ++ shape inRemote r ++ ")"
   | .neg e => "-(" ++ shape inRemote e ++ ")"
   | .pos e => "+(" ++ shape inRemote e ++ ")"
